@@ -14,8 +14,8 @@ import time
 VERIF = os.path.dirname(os.path.dirname(os.path.abspath(__file__)))
 REPO = os.environ.get("VERIF_REPO", "/repo")
 TLA = os.path.join(VERIF, "tla")
-CACHE = os.path.join(VERIF, ".cache")
-EVID = os.path.join(VERIF, "evidence")
+CACHE = os.environ.get("VERIF_CACHE", os.path.join(VERIF, ".cache"))
+EVID = os.environ.get("VERIF_EVID", os.path.join(VERIF, "evidence"))
 
 GOENV = dict(os.environ, GOFLAGS="-mod=mod", GOPROXY="off", GOSUMDB="off", GOTOOLCHAIN="local",
              CGO_ENABLED=os.environ.get("CGO_ENABLED", "0"))
